@@ -443,7 +443,7 @@ def concurrent_program(dc, sc, res, rng, label):
         setup.set(k, v)
     shared = rng.random() < 0.5
     caches = [setup if shared else dc.Cache(d, timeout=0) for _ in range(nclients)]
-    sch = Sched(rng, clock, strategy=rng.choice(['random', 'preempt']), preempt_points={rng.randrange(0, 100)})
+    sch = Sched(rng, clock, strategy=rng.choice(['random', 'preempt', 'ops']), preempt_points={rng.randrange(0, 100)})
     rec = Recorder(sch)
     # in half of the programs one or two statements / file operations of some client fail while the others go on
     # (never BEGIN, COMMIT or ROLLBACK, see DESIGN 7.18)
